@@ -1,4 +1,6 @@
 import FrappyDrive.Util
+import FrappyDrive.DTypes
+import FrappyModel.Client.CacheDT
 import FrappyModel.Spec.C12
 import FrappyModel.Generated.C12
 /- line-protocol glue for C12 (not part of any theorem) -/
@@ -22,9 +24,16 @@ def parseTQ (j : Json) : R TQ :=
   | .str "bad" => pure .bad
   | _ => do return .num (← j.getInt?)
 
+/-- canonical text of a Python value: the compressed protocol encoding (ints exact, floats by bit pattern, kinds kept
+apart, dict order kept) — equality of these texts is `PVal.same` -/
+def normP (v : PVal Float) : String := (pvalToJson v).compress
+
+/-- canonical text of a JSON value as `json.loads` delivered it -/
+def normJ (v : JVal Float) : String := (jvalToJson v).compress
+
 def parseData (j : Json) : R (Data String) := do
   match ← arr j with
-  | [.str "v", v, tq] => return .value (← v.getStr?) (← parseTQ tq)
+  | [.str "v", v, tq] => return .value (normJ (← jvalOfJson v)) (← parseTQ tq)
   | [.str "r", cls, text, tq] => return .report (← optS cls) (← getStr text) (← parseTQ tq)
   | [.str "x"] => return .malformed
   | _ => throw s!"bad data {j.compress}"
@@ -65,24 +74,36 @@ def parseDesc (j : Json) : R (List ModDesc) := do
       | _ => throw "bad acc"
     return ⟨← getStr (← fld m "name"), accs⟩
 
-abbrev ImpTable := List ((Str × Str × String) × Option String)
-
-def parseImp (j : Json) : R ImpTable := do
+/-- the datatypes the client rebuilt from the description, as trees: `[[module, parameter, tree], …]` -/
+def parseDts (j : Json) : R (DtTable Float) := do
   (← arr j).mapM fun e => do
     match ← arr e with
-    | [m, p, v, r] =>
-      let res ← if r.isNull then pure none else some <$> r.getStr?
-      return ((← getStr m, ← getStr p, ← v.getStr?), res)
-    | _ => throw "bad imp entry"
+    | [m, p, tree] => return ((← getStr m, ← getStr p), ← dtypeOfJson tree)
+    | _ => throw "bad dts entry"
 
-def impOf (tab : ImpTable) (m p : Str) (j : String) : Option String := (dictGet tab (m, p, j)).join
+/-- the import oracle of the receive-loop model, instantiated with the datatype model (`Datatypes.importValue`, C01/C02)
+on the parameter's tree: nothing of the implementation's `import_value` enters the judgement -/
+def impOf (tab : DtTable Float) (m p : Str) (j : String) : Option String :=
+  match (Json.parse j).toOption.bind (fun x => (jvalOfJson x).toOption) with
+  | some jv => (dtImp tab m p jv).map normP
+  | none => none
 
+/-- behaviour of the callbacks: `[cb, "ok"|"raises"|"unregister", [[kind, key, cb], …]]` — how a call ends and which
+registrations it removes through `unregister_callback` while running -/
 def parseBehave (j : Json) : R (List (Nat × Outcome)) := do
   (← arr j).mapM fun e => do
     match ← arr e with
-    | [cb, .str "ok"] => return (← cb.getNat?, .ok)
-    | [cb, .str "raises"] => return (← cb.getNat?, .raises)
-    | [cb, .str "unregister"] => return (← cb.getNat?, .unregister)
+    | [cb, how, rm] =>
+      let res : Result ← match how with
+        | .str "ok" => pure Result.ok
+        | .str "raises" => pure Result.raises
+        | .str "unregister" => pure Result.unregister
+        | _ => throw "bad behave entry"
+      let removes ← (← arr rm).mapM fun r => do
+        match ← arr r with
+        | [kind, key, c] => parseReg kind key c
+        | _ => throw "bad removal"
+      return (← cb.getNat?, ⟨removes, res⟩)
     | _ => throw "bad behave entry"
 
 def behaveOf (tab : List (Nat × Outcome)) (c : Call String) : Outcome := (dictGet tab c.reg.cb).getD .ok
@@ -97,7 +118,7 @@ def keyJson : Key → Json
   | .param m p => jarr [jstr m, jstr p]
 
 def contentJson (t : Tables) : Content String → Json
-  | .value v => jarr ["v", Json.str v]
+  | .value v => jarr ["v", (Json.parse v).toOption.getD (Json.str v)]
   | .error e => jarr ["e", jstr e.pycls, jstr e.name, jstr e.arg, jstr (formatErr t e)]
 
 def callJson (t : Tables) (c : Call String) : Json :=
@@ -110,7 +131,7 @@ def cacheJson (t : Tables) (c : Cache String) : Json :=
 the way `formatErr` says (second component of the result) -/
 def parseContent (t : Tables) (j : Json) : R (Content String × Bool) := do
   match ← arr j with
-  | [.str "v", v] => return (.value (← v.getStr?), true)
+  | [.str "v", v] => return (.value (normP (← pvalOfJson v)), true)
   | [.str "e", pycls, name, arg, fmt, usable] =>
     let e : ErrObj := ⟨← getStr pycls, ← getStr name, ← getStr arg⟩
     let fmtOk := match fmt with
@@ -161,13 +182,13 @@ def handle (j : Json) : R Json := do
                        ("params", jarr (mp.params.map fun e => jarr [jstr e.1.1, jstr e.1.2]))]
   | "run" =>
     let mp := initDescription tables (← parseDesc (← fld j "desc"))
-    let imp := impOf (← parseImp (← fld j "imp"))
+    let imp := impOf (← parseDts (← fld j "dts"))
     let behave := behaveOf (← parseBehave (← fld j "behave"))
     let evs ← (← fldArr j "evs").mapM parseEv
     return Json.mkObj [("steps", jarr (runSteps mp imp behave {} evs))]
   | "judge" =>
     let mp := initDescription tables (← parseDesc (← fld j "desc"))
-    let imp := impOf (← parseImp (← fld j "imp"))
+    let imp := impOf (← parseDts (← fld j "dts"))
     let behave := behaveOf (← parseBehave (← fld j "behave"))
     let evs ← (← fldArr j "evs").mapM parseEv
     let obs ← (← fldArr j "steps").mapM fun st => do
@@ -194,6 +215,55 @@ def handle (j : Json) : R Json := do
     let (after, ok2) ← parseCache tables (← fld j "after")
     let calls ← (← fldArr j "calls").mapM (parseCall tables)
     return Json.mkObj [("ok", Json.bool (wakeOkB before (calls.map (·.1)) after && ok1 && ok2))]
+  | "judge_e2e" =>
+    -- second sentence of C12 on one observed `setParameter`: values travel in the protocol encoding (ints exact, floats
+    -- by bit pattern), equality is Python's `==` (`PVal.pyEq`); `entry`/`ret` are `null` when they hold an error
+    let passed ← pvalOfJson (← fld j "passed")
+    let got ← (← fldArr j "got").mapM pvalOfJson
+    let returned ← optPVal (← fld j "returned")
+    let mk (x : Json) : R (Option (Item (PVal Float))) := do
+      return (← optPVal x).map (fun v => ⟨.value v, 0⟩)
+    let entry ← mk (← fld j "cache")
+    let ret ← mk (← fld j "ret")
+    let driverOk := match got with
+      | [v'] => PVal.pyEq v' passed
+      | _ => false
+    let cacheOk := match returned with
+      | some r => writeOkB PVal.pyEq passed got r entry && writeOkB PVal.pyEq passed got r ret
+      | none => false
+    let tsj ← fld j "ts"
+    let clock ← floatOfJson (← fld j "clock")
+    let tsOk : Bool ← if tsj.isNull then pure false else (fun ts => FloatOps.le ts clock) <$> floatOfJson tsj
+    return Json.mkObj [("ok", Json.bool (driverOk && cacheOk && tsOk)),
+      ("which", if !driverOk then "driver" else if !cacheOk then "cache" else if !tsOk then "timestamp" else Json.null)]
+  | "e2e" =>
+    -- the model's account of one `setParameter`: what the driver gets and what the cache holds afterwards
+    let dt ← dtypeOfJson (← fld j "dt")
+    let cdt ← dtypeOfJson (← fld j "cdt")
+    let prev ← optPVal (← fld j "prev")
+    let ret ← optPVal (← fld j "ret")
+    let passed ← pvalOfJson (← fld j "passed")
+    if (← fldStr j "via") == "proxy" then
+      match proxyTrace dt cdt prev passed ret with
+      | some tr => return Json.mkObj [("got", pvalToJson tr.driverGot), ("cache", pvalToJson tr.cached),
+                                      ("ret", pvalToJson tr.returned)]
+      | none => return Json.mkObj [("got", Json.null), ("cache", Json.null), ("ret", Json.null)]
+    else
+      match writeTrace dt cdt prev passed ret with
+      | some tr => return Json.mkObj [("got", pvalToJson tr.driverGot), ("cache", pvalToJson tr.cached),
+                                      ("ret", pvalToJson tr.cached)]
+      | none => return Json.mkObj [("got", Json.null), ("cache", Json.null), ("ret", Json.null)]
+  | "judge_read_error" =>
+    -- a driver raised an error of class `pycls` (error name `name`) with `text`: the client's read must hand back an
+    -- error object of that class, that name and that text, usable and formatting as `SECoPError.format` prescribes
+    let obs ← fld j "obs"
+    if obs.isNull then return Json.mkObj [("ok", Json.bool false)]
+    let (c, usable) ← parseContent tables obs
+    let want : ErrObj := ⟨← getStr (← fld j "pycls"), ← getStr (← fld j "name"), ← getStr (← fld j "text")⟩
+    let ok := match c with
+      | .error e => decide (e = want) && usable
+      | .value _ => false
+    return Json.mkObj [("ok", Json.bool ok)]
   | "rebuild" =>
     let e := makeSecopError tables (← optS (← fld j "cls")) (← getStr (← fld j "text"))
     return Json.mkObj [("pycls", jstr e.pycls), ("name", jstr e.name), ("arg", jstr e.arg), ("fmt", jstr (formatErr tables e))]
